@@ -13,7 +13,9 @@ from slicer import Slicer
 KEY_RX = r"(?<![\w!#])((?:\w+\s*\.\s*)*\w+)\s*\[\s*(\d+)\s*\]"
 MUTATORS = ("push|pop|clear|remove|truncate|retain|insert|extend|drain|append|swap_remove|split_off|dedup|dedup_by_key|"
             "resize|push_back|push_front|pop_back|pop_front|extend_from_slice|take")
-PANIC_RX = r"\b(?:unreachable|panic|todo|unimplemented|assert|assert_eq|assert_ne)!\s*[(\[{]|\.\s*unwrap\s*\(\s*\)|\.\s*expect\s*\("
+# (String::truncate / split_at / split_off / replace_range / drain panic on an offset that is out of range or not a character
+# boundary; Vec::truncate does not panic, but the slicer does not know the receiver's type: every such call is a listed site)
+PANIC_RX = r"\b(?:unreachable|panic|todo|unimplemented|assert|assert_eq|assert_ne)!\s*[(\[{]|\.\s*unwrap\s*\(\s*\)|\.\s*expect\s*\(|\.\s*(?:truncate|split_at|split_off|replace_range|drain|swap_remove)\s*\("
 KEYWORDS = {"self", "Self", "crate", "super", "vec"}
 
 
